@@ -21,13 +21,13 @@ def c08First : List (Option String) → Option String
   | none :: r => c08First r
 
 /-- a list of time points: declared count, all in `[tmin, tmax]` -/
-def holdsTimes (what : String) (tmin tmax : Rat) (cnt : Nat) (ts : List Rat) : Option String :=
+def c08Times (what : String) (tmin tmax : Rat) (cnt : Nat) (ts : List Rat) : Option String :=
   if ts.length != cnt then some (what ++ "-count")
   else if !(ts.all (c08InIcc tmin tmax)) then some (what ++ "-point-outside-interval")
   else none
 
 /-- a list of space points: declared count, `dim` coordinates, all in the box -/
-def holdsPoints (what : String) (mins maxs : List Rat) (cnt : Nat) (ps : List (List Rat)) :
+def c08Points (what : String) (mins maxs : List Rat) (cnt : Nat) (ps : List (List Rat)) :
     Option String :=
   if ps.length != cnt then some (what ++ "-count")
   else if !(ps.all fun p => p.length == mins.length) then some (what ++ "-point-shape")
@@ -36,7 +36,7 @@ def holdsPoints (what : String) (mins maxs : List Rat) (cnt : Nat) (ps : List (L
 
 /-- facet `f` (order `x0min, x0max, x1min, x1max, …`) of one border row (coordinates × facets):
     coordinate `f / 2` is EQUAL to its bound, the others are in range -/
-def facetClause (mins maxs : List Rat) (f : Nat) (row : List (List Rat)) : Option String :=
+def c08FacetClause (mins maxs : List Rat) (f : Nat) (row : List (List Rat)) : Option String :=
   c08First <| (List.range mins.length).map fun c =>
     match (row.getD c [])[f]? with
     | none => some "border-shape"
@@ -48,16 +48,16 @@ def facetClause (mins maxs : List Rat) (f : Nat) (row : List (List Rat)) : Optio
       else some s!"border-facet{f}-free-coordinate-outside-range"
 
 /-- a border array (rows × dim × 2·dim): declared row count, shape, every facet point on its facet -/
-def holdsBorderRows (what : String) (mins maxs : List Rat) (cnt : Nat) (rows : List (List (List Rat))) :
+def c08BorderRows (what : String) (mins maxs : List Rat) (cnt : Nat) (rows : List (List (List Rat))) :
     Option String :=
   let dim := mins.length
   if rows.length != cnt then some (what ++ "-count")
   else if !(rows.all fun r => r.length == dim && r.all fun c => c.length == 2 * dim) then
     some (what ++ "-shape")
-  else c08First <| rows.map fun r => c08First <| (List.range (2 * dim)).map fun f => facetClause mins maxs f r
+  else c08First <| rows.map fun r => c08First <| (List.range (2 * dim)).map fun f => c08FacetClause mins maxs f r
 
 /-- rows `(t, x…)` of a space-time interior batch -/
-def holdsTX (mins maxs : List Rat) (tmin tmax : Rat) (cnt : Nat) (tx : List (List Rat)) : Option String :=
+def c08TX (mins maxs : List Rat) (tmin tmax : Rat) (cnt : Nat) (tx : List (List Rat)) : Option String :=
   if tx.length != cnt then some "interior-batch-count"
   else if !(tx.all fun r => r.length == 1 + mins.length) then some "interior-batch-point-shape"
   else if !(tx.all fun r => c08InIcc tmin tmax (r.headD 0)) then some "interior-batch-time-outside-interval"
@@ -66,7 +66,7 @@ def holdsTX (mins maxs : List Rat) (tmin tmax : Rat) (cnt : Nat) (tx : List (Lis
 
 /-- rows (1 + dim) × 2·dim of a space-time border batch: time row in the interval on every facet,
     the remaining rows a border row -/
-def holdsTDX (mins maxs : List Rat) (tmin tmax : Rat) (cnt : Nat) (tdx : List (List (List Rat))) :
+def c08TDX (mins maxs : List Rat) (tmin tmax : Rat) (cnt : Nat) (tdx : List (List (List Rat))) :
     Option String :=
   let dim := mins.length
   if tdx.length != cnt then some "border-batch-count"
@@ -74,6 +74,84 @@ def holdsTDX (mins maxs : List Rat) (tmin tmax : Rat) (cnt : Nat) (tdx : List (L
     some "border-batch-shape"
   else if !(tdx.all fun r => (r.headD []).all (c08InIcc tmin tmax)) then
     some "border-batch-time-outside-interval"
-  else holdsBorderRows "border-batch" mins maxs cnt (tdx.map List.tail)
+  else c08BorderRows "border-batch" mins maxs cnt (tdx.map List.tail)
+
+/-! ### whole traces -/
+
+/-- C08 on an ODE generator: the time store after construction and every temporal batch. -/
+def holdsC08Ode (tmin tmax : Rat) (nt bt : Nat) (times : List Rat) (batches : List (List Rat)) :
+    Option String :=
+  c08First (c08Times "time-store" tmin tmax nt times ::
+    batches.map (c08Times "time-batch" tmin tmax bt))
+
+/-- the stores of a stationary generator: `omega` (n × dim), and the border store — absent without a
+    border batch size, `(xmin, xmax)` in 1-D, `nb / (2 dim)` rows × dim × 2·dim on the facets else
+    (`nb` the declared number of border points) -/
+def holdsC08StatioStores (mins maxs : List Rat) (n : Nat) (nb bb : Option Nat)
+    (omega : List (List Rat)) (border2 : Option (List (List (List Rat)))) (border1 : Option (List Rat)) :
+    Option String :=
+  let dim := mins.length
+  c08First [
+    c08Points "omega-store" mins maxs n omega,
+    match bb with
+    | none =>
+      if border2.isSome || border1.isSome then some "border-store-present-without-border-batch-size" else none
+    | some _ =>
+      if dim == 1 then
+        (if border1 == some [mins.getD 0 0, maxs.getD 0 0] then none
+         else some "border-1d-store-is-not-(xmin,xmax)")
+      else match border2 with
+        | none => some "border-store-missing"
+        | some rows =>
+          if 2 * dim * rows.length != nb.getD 0 then some "border-store-count"
+          else c08BorderRows "border-store" mins maxs rows.length rows]
+
+/-- one batch of a stationary generator: `inside_batch` (b × dim) and `border_batch`
+    (absent / `[[[xmin, xmax]]]` / bb × dim × 2·dim) -/
+def holdsC08StatioBatch (mins maxs : List Rat) (b : Nat) (bb : Option Nat)
+    (x : List (List Rat)) (dx : Option (List (List (List Rat)))) : Option String :=
+  let dim := mins.length
+  c08First [
+    c08Points "inside-batch" mins maxs b x,
+    match bb, dx with
+    | none, none => none
+    | none, some _ => some "border-batch-present-without-border-batch-size"
+    | some _, none => some "border-batch-missing"
+    | some bbv, some d =>
+      if dim == 1 then
+        (if d == [[[mins.getD 0 0, maxs.getD 0 0]]] then none else some "border-1d-batch-is-not-(xmin,xmax)")
+      else c08BorderRows "border-batch" mins maxs bbv d]
+
+/-- C08 on a stationary generator: stores, then every batch of the history. -/
+def holdsC08Statio (mins maxs : List Rat) (n : Nat) (nb : Option Nat) (b : Nat) (bb : Option Nat)
+    (omega : List (List Rat)) (border2 : Option (List (List (List Rat)))) (border1 : Option (List Rat))
+    (batches : List (List (List Rat) × Option (List (List (List Rat))))) : Option String :=
+  c08First (holdsC08StatioStores mins maxs n nb bb omega border2 border1 ::
+    batches.map fun xd => holdsC08StatioBatch mins maxs b bb xd.1 xd.2)
+
+/-- one space-time batch: `rowsIn` interior rows `(t, x…)`, `rowsBd` border rows -/
+def holdsC08NonStatioBatch (mins maxs : List Rat) (tmin tmax : Rat) (rowsIn rowsBd : Nat)
+    (bb : Option Nat) (tx : List (List Rat)) (tdx : Option (List (List (List Rat)))) : Option String :=
+  c08First [
+    c08TX mins maxs tmin tmax rowsIn tx,
+    match bb, tdx with
+    | none, none => none
+    | some _, some td => c08TDX mins maxs tmin tmax rowsBd td
+    | _, _ => some "border-batch-presence-differs-from-the-border-setting"]
+
+/-- C08 on a non-stationary generator (declared shapes: product ⇒ `bt·b` interior rows and
+    `bt·bb` border rows (`bt` in 1-D); pairing ⇒ `b` and `bb` rows). -/
+def holdsC08NonStatio (mins maxs : List Rat) (tmin tmax : Rat) (n : Nat) (nb : Option Nat) (nt : Nat)
+    (b : Nat) (bb : Option Nat) (bt : Nat) (cart : Bool)
+    (omega : List (List Rat)) (border2 : Option (List (List (List Rat)))) (border1 : Option (List Rat))
+    (times : List Rat)
+    (batches : List (List (List Rat) × Option (List (List (List Rat))))) : Option String :=
+  let dim := mins.length
+  let bbv := if dim == 1 then 1 else bb.getD 0
+  let rowsIn := if cart then bt * b else b
+  let rowsBd := if cart || dim == 1 then bt * bbv else bbv
+  c08First (holdsC08StatioStores mins maxs n nb bb omega border2 border1 ::
+    c08Times "time-store" tmin tmax nt times ::
+    batches.map fun p => holdsC08NonStatioBatch mins maxs tmin tmax rowsIn rowsBd bb p.1 p.2)
 
 end Jinns.Holds
